@@ -20,7 +20,7 @@ import (
 func init() {
 	register(&Prop{
 		ID: "C20", Level: "exploration",
-		Rule: "one case = a router with LoggerWithHandler(capturing handler) over all handler kinds, a drawn router-wide client-IP resolver (none, succeeding, failing - returning nil or a rejected candidate address next to its error) and routes with a drawn per-route resolver (inherit, other succeeding, failing, nil), plus a twin router without the logger; 8-20 requests per run, each with a scripted handler behaviour from {explicit status at the class boundaries 200/299/300/399/400/499/500/599 and every code 301-308 and 310, each with or without a Location header set, 201 with a Location header, informational only, implicit 200 by a body write, no write at all, redirect with Location, 3xx without Location, a handler that replaces the writer (SetWriter) and answers through the new one, write on a failing connection, panic with a drawn value} and a drawn handler kind (route, no-route, no-method, built-in redirect, options). The log handler has a drawn minimum level (DEBUG..ERROR). Oracle: exactly one record per returning handler whose level reaches that minimum (none below it), emitted after the handler returned; status attribute = the status the recorder reports (first final status forwarded, 200 if none); method, host, path of the request; message = resolved client IP / remote address when no resolver is configured / 'unknown' when resolution fails, using the route's resolver in route handlers and the router-wide one elsewhere; level INFO/DEBUG/WARN/ERROR per status class, location attribute exactly for 3xx with a Location header; the bytes and headers on the simulated connection equal those of the twin router; a panic passes through as the identical value and emits no record. latency is ignored. Then 2-3 tasks send overlapping requests through the same wrapped handlers under the seeded scheduler (yields inside handlers and inside the log handler's Enabled, i.e. before slog copies the attributes): the records must be exactly one per request with that request's data. Non-trivial: the run covered at least 3 status classes and 2 handler kinds; distinct = hash of (configuration, request scripts).",
+		Rule: "one case = a router with LoggerWithHandler(capturing handler) over all handler kinds, a drawn router-wide client-IP resolver (none, succeeding, failing - returning nil or a rejected candidate address next to its error) and routes with a drawn per-route resolver (inherit, other succeeding, failing, nil), plus a twin router without the logger; 8-20 requests per run, each with a scripted handler behaviour from {explicit status at the class boundaries 200/299/300/399/400/499/500/599 and every code 301-308 and 310, each with or without a Location header set, 201 with a Location header, informational only, implicit 200 by a body write, no write at all, redirect with Location, 3xx without Location, a handler that replaces the writer (SetWriter) and answers through the new one, write on a failing connection, panic with a drawn value} and a drawn handler kind (route, no-route, no-method, built-in redirect, options). The log handler has a drawn minimum level (DEBUG..ERROR). Oracle: exactly one record per returning handler whose level reaches that minimum (none below it), emitted after the handler returned; status attribute = the status the recorder reports (first final status forwarded, 200 if none); method, host, path of the request; message = resolved client IP / remote address when no resolver is configured / 'unknown' when resolution fails, using the route's resolver in route handlers and the router-wide one elsewhere; level INFO/DEBUG/WARN/ERROR per status class, location attribute exactly for 3xx with a Location header; the bytes and headers on the simulated connection equal those of the twin router; a panic passes through as the identical value and emits no record. latency is ignored. Then 2-3 tasks send overlapping requests through the same wrapped handlers under the seeded scheduler (yields inside handlers and inside the log handler's Enabled, i.e. before slog copies the attributes): the records must be exactly one per request with that request's data. One time in three a middleware ahead of the Logger runs the chain on a CloneWith copy of the context (same records expected). Non-trivial: the run covered at least 3 status classes and 2 handler kinds; distinct = hash of (configuration, request scripts).",
 		Run:  runC20, Quick: 64000, Thorough: 9600000,
 		Real: []string{"Logger middleware (logger.go)", "Context.ClientIP / RemoteIP", "recorder ResponseWriter", "ServeHTTP dispatch", "option processing (WithClientIPResolver)"},
 		Stub: []string{"slog sink: capturing handler", "client-IP resolvers: scripted", "net/http connection: simulated connection", "wall clock: real but unobserved (latency attribute excluded)"},
@@ -103,7 +103,20 @@ func runC20(src sim.Source, o Opts) *Result {
 		gopt = append(gopt, fox.WithClientIPResolver(scriptedResolver{ip: failIP, err: errResolver}))
 	}
 	cfg := world.Cfg{NoMethod: true, AutoOptions: true, GlobalTS: 2}
-	w, err := world.Build(cfg, append([]fox.GlobalOption{fox.WithMiddleware(fox.LoggerWithHandler(capt))}, gopt...)...)
+	// one time in three a middleware AHEAD of the Logger runs the rest of the chain on a copy of the context made with
+	// CloneWith (the documented way to substitute a writer): the Logger then reports from the copy, same record
+	chain := []fox.MiddlewareFunc{fox.LoggerWithHandler(capt)}
+	if src.Intn("cloningmw", 3) == 2 {
+		res.inc("config_logger_behind_a_clonewith_middleware")
+		chain = append([]fox.MiddlewareFunc{func(next fox.HandlerFunc) fox.HandlerFunc {
+			return func(c fox.Context) {
+				cp := c.CloneWith(c.Writer(), c.Request())
+				defer cp.Close()
+				next(cp)
+			}
+		}}, chain...)
+	}
+	w, err := world.Build(cfg, append([]fox.GlobalOption{fox.WithMiddleware(chain...)}, gopt...)...)
 	if err != nil {
 		res.Trouble = err.Error()
 		return res
